@@ -134,6 +134,11 @@ def h_completion(c):
             kw["tol"] = int(kw["tol"])
     if c.get("seed") is not None:
         kw["seed"] = list(c["seed"])
+        sc = c.get("seed_container", "list")
+        if sc == "tuple":
+            kw["seed"] = tuple(c["seed"])
+        elif sc != "list":
+            kw["seed"] = numpy.array(c["seed"], dtype=sc)          # int64 / uint8 / int8 / bool / float64 arrays hold the same 0/1 vector
     before = coefs.copy() if hasattr(coefs, "copy") and not isinstance(coefs, list) else list(coefs)
     with randint_bits(c.get("bits")) as stub:
         g = completion_from_root_finding(coefs, **kw)
